@@ -277,6 +277,9 @@ pub(crate) fn parse_vlq_segment_into(segment: &str, rv: &mut Vec<i64>) -> Result
 
     for c in segment.bytes() {
         let enc = i64::from(B64[c as usize]);
+        if enc < 0 {
+            fail!(Error::InvalidBase64(c as char));
+        }
         let val = enc & 0b11111;
         let cont = enc >> 5;
         cur += val
